@@ -238,7 +238,11 @@ fn read_only_batch(repo: Repository<OpenStatus>) -> RusticResult<()> {
                 repo.dump(&node, &mut sink)?;
             }
         }
-        let _ = repo.node_from_path(s.tree, std::path::Path::new("src/common"))?;
+        // only snapshots of the in-memory source (root `/src`) hold that path; a stdin / local-directory snapshot answers "not found"
+        let by_path = repo.node_from_path(s.tree, std::path::Path::new("src/common"));
+        if s.paths.contains(crate::repo::SRC_ROOT) {
+            let _ = by_path?;
+        }
         drop(tree);
     }
     let _ = repo.drop_index();
